@@ -56,10 +56,10 @@ def sh(cmd, cwd=None, timeout=None, env=None, stdin=None):
 # Verus
 # ----------------------------------------------------------------------------------------
 
-def run_verus_file(path, rlimit=None, timeout=900):
+def run_verus_file(path, rlimit=None, timeout=900, multiple_errors=10):
     cmd = ['bash', '-c',
            'ulimit -s unlimited 2>/dev/null; export RUST_MIN_STACK=1073741824; exec verus "$0" --output-json --time '
-           '--multiple-errors 10 --error-format=json --rlimit %s' % (rlimit or 40), path]
+           '--multiple-errors %d --error-format=json --rlimit %s' % (multiple_errors, rlimit or 40), path]
     rc, out, err, wall = sh(cmd, cwd=os.path.dirname(path), timeout=timeout)
     res = {'rc': rc, 'wall_s': round(wall, 2), 'diagnostics': [], 'functions': {}, 'raw_err': ''}
     if rc == 'timeout':
@@ -145,10 +145,35 @@ def verus_unit(unit, workdir):
     except ExtractionLost as e:
         r['undecided'] = 'extraction lost (vacuity twin): %s' % e
         return r
-    with cf.ThreadPoolExecutor(2) as ex:
+    # reachability twin: an unprovable probe `assert(verif_reach(k))` at the entry of every contracted
+    # function, before every inserted proof block and at the start of every annotated loop body.  Each
+    # probe must FAIL: one that verifies sits at a point whose context is contradictory (e.g. an
+    # inconsistent assumed contract of a stub), i.e. everything "proved" after it is vacuous.
+    try:
+        gr = verusgen.build(REPO, spec, reach=True)
+        rpath = os.path.join(workdir, unit + '_reach.rs')
+        open(rpath, 'w').write(gr.text())
+    except ExtractionLost as e:
+        r['undecided'] = 'extraction lost (reach twin): %s' % e
+        return r
+    with cf.ThreadPoolExecutor(3) as ex:
         f1 = ex.submit(run_verus_file, path)
         f2 = ex.submit(run_verus_file, vpath)
-        res, vres = f1.result(), f2.result()
+        f3 = ex.submit(run_verus_file, rpath, None, 900, 2000)
+        res, vres, rres = f1.result(), f2.result(), f3.result()
+    r['reach'] = {'probes': len(gr.reach), 'reached': 0, 'unreached': []}
+    if rres['status'] in ('timeout', 'crash'):
+        r['undecided'] = r['undecided'] or 'reach twin: verus %s' % rres['status']
+    elif rres['status'] == 'rejected':
+        r['undecided'] = r['undecided'] or 'reach twin: verus rejected the probe file: %s' % '; '.join(d['message'] for d in rres['diagnostics'][:2])
+    else:
+        hit = set()
+        for d in rres['diagnostics']:
+            m_ = re.search(r'verif_reach\((\d+)\)', d.get('text', '') or '') or re.search(r'assert\(verif_reach\((\d+)\)\)', d.get('rendered', '') or '')
+            if d['level'] == 'error' and m_:
+                hit.add(int(m_.group(1)))
+        r['reach']['reached'] = len(hit)
+        r['reach']['unreached'] = ['%s: %s' % (fn_, desc) for (k_, fn_, desc) in gr.reach if k_ not in hit]
     r['wall_s'] = res['wall_s']
     r['smt_ms'] = res.get('smt_ms', 0)
     r['version'] = res.get('version', '')
@@ -243,6 +268,10 @@ def verus_unit(unit, workdir):
             r['vacuity'].append({'fn': n, 'ensures_false_rejected': not passed_false})
             if passed_false and not r['failures']:
                 r['undecided'] = r['undecided'] or 'vacuity guard: `ensures false` verified for %s (contradictory precondition?)' % n
+    if r.get('reach') and r['reach']['unreached'] and not r['failures']:
+        # (with a genuine failure in the unit, probes after the failing point may legitimately be masked)
+        r['undecided'] = r['undecided'] or 'vacuity guard: %d reachability probe(s) verified instead of failing (contradictory context): %s' % (
+            len(r['reach']['unreached']), '; '.join(r['reach']['unreached'][:3]))
     return r
 
 
@@ -648,6 +677,8 @@ def main(argv):
             if r.get('vacuity') is not None:
                 samples.append({'unit': u['unit'], 'vacuity_twins_rejected': sum(1 for v in r['vacuity'] if v['ensures_false_rejected']),
                                 'of': len(r['vacuity'])})
+            if r.get('reach'):
+                samples.append({'unit': u['unit'], 'reachability_probes_failed_as_required': r['reach']['reached'], 'of': r['reach']['probes']})
         # stubs used by the harnesses of this run are part of the trusted base
         hnames = set(h['name'] for h in kani_hs)
         hdir = os.path.join(VERIF, 'kani', 'harness')
